@@ -681,6 +681,13 @@ impl<'a> Exec<'a> {
                 self.ev(format!("drop h{h}"));
                 Ok(())
             }
+            Op::Warm {
+                alt,
+                kind,
+                text,
+                steps,
+                seed,
+            } => self.op_warm(*alt, *kind, text, *steps, *seed),
             Op::Mask { h, fuel_at } => self.op_mask(*h, *fuel_at, false),
             Op::MaskOrEos { h } => self.op_mask(*h, None, true),
             Op::Validate { h, picks } => self.op_validate(*h, picks),
@@ -800,6 +807,48 @@ impl<'a> Exec<'a> {
         }
         self.ev(format!("new h{h} {:?} alt={:?}", kind, alt));
         self.slots.insert(h, s);
+        Ok(())
+    }
+
+    fn op_warm(&mut self, alt: Option<usize>, kind: crate::corpus::GKind, text: &str, steps: usize, seed: u64) -> VResult<()> {
+        let fac = match alt {
+            None => &self.ctx.world.factory,
+            Some(i) => &self.ctx.alt_factories[i],
+        };
+        let g = match top_level_grammar(kind, text) {
+            Ok(g) => g,
+            Err(_) => return Ok(()),
+        };
+        let mut m = Matcher::new(fac.create_parser(g));
+        let mut rng = crate::rng::Rng::new(seed);
+        let mut n = 0;
+        for _ in 0..steps {
+            if m.is_stopped() {
+                break;
+            }
+            let mask = match m.compute_mask() {
+                Ok(x) => x,
+                Err(_) => break,
+            };
+            let l = mask.to_list();
+            if l.is_empty() {
+                break;
+            }
+            // long tokens keep the warm-up engine inside big lexemes (where slices apply)
+            let t = if rng.chance(0.5) {
+                *l.iter()
+                    .max_by_key(|t| self.ctx.tok_bytes(**t).len())
+                    .unwrap()
+            } else {
+                *rng.pick(&l)
+            };
+            if m.consume_token(t).is_err() {
+                break;
+            }
+            n += 1;
+        }
+        self.stats.probe("warmup_other_grammar_on_shared_factory");
+        self.ev(format!("warm alt={:?} steps={n}", alt));
         Ok(())
     }
 
